@@ -313,6 +313,18 @@ def do_crop(src, out, mode, ranges):
         os.remove(out)
     try:
         with SgzCropper(src['path']) as c:
+            # the crop must not depend on what the same cropper object was asked before (a user looks at a tracefield grid or
+            # a header to choose the box): every third crop is preceded by such a query
+            if True:
+                # (a function of the request itself, so that a replayed input takes the same route)
+                hist = (sum(int(v) for r_ in ranges if r_ is not None for v in r_ if isinstance(v, (int, np.integer))) + (mode == 'idx')) % 3
+                try:
+                    if hist == 1 and c.stored_header_keys:
+                        c.get_tracefield_values(c.stored_header_keys[-1])
+                    elif hist == 2 and c.tracecount > 0:
+                        c.gen_trace_header(c.tracecount - 1)
+                except Exception:
+                    pass                # (queries a source does not support are not the cropper's concern)
             f = c.write_cropped_file_by_indexes if mode == 'idx' else c.write_cropped_file_by_coords
             quiet(f, out, *ranges)
         return 'ok'
